@@ -48,6 +48,8 @@ type run struct {
 	stuck      bool
 	inTx       bool
 	stalled    map[*simmongo.Pending]int // database commands the simulated database is slow to answer
+	evOwners   map[int][]string          // event index -> owners (calls) of its exchange
+	cmdNames   map[string][]string       // owner -> names of its database commands in order
 }
 
 type heldResp struct {
@@ -125,7 +127,8 @@ func Execute(t *testing.T, plan *kernel.Plan, known map[string]bool, verbose boo
 	r := &run{prop: plan.Property, cfg: cfg, known: known, verbose: verbose,
 		res:   &kernel.Result{Faults: map[string]int{}, Probes: map[string]int{}},
 		trace: kernel.NewHasher(), slog: kernel.NewHasher(), states: map[uint64]bool{},
-		lagging: map[string]bool{}, bgDone: map[string]int{}, insertedBy: map[string]string{}, cmdNo: map[string]int{}, stalled: map[*simmongo.Pending]int{}}
+		lagging: map[string]bool{}, bgDone: map[string]int{}, insertedBy: map[string]string{}, cmdNo: map[string]int{}, stalled: map[*simmongo.Pending]int{},
+		evOwners: map[int][]string{}, cmdNames: map[string][]string{}}
 	finish := func() {
 		r.res.Violation = r.viol
 		r.res.Steps = r.decisions
@@ -135,6 +138,14 @@ func Execute(t *testing.T, plan *kernel.Plan, known map[string]bool, verbose boo
 			r.res.States = append(r.res.States, s)
 		}
 		r.res.Nontrivial = r.nontrivial()
+		if r.cfg.Count {
+			r.res.EvCmds = map[int][]string{}
+			for i, os := range r.evOwners {
+				if len(os) == 1 && i < len(evs) {
+					r.res.EvCmds[i] = r.cmdNames[os[0]]
+				}
+			}
+		}
 	}
 	func() {
 		defer func() {
@@ -386,6 +397,9 @@ func (r *run) answerCmd(p *simmongo.Pending, faults []MongoFault) {
 	w := r.w
 	r.cmdNo[p.Owner]++
 	k := r.cmdNo[p.Owner]
+	if r.cfg.Count {
+		r.cmdNames[p.Owner] = append(r.cmdNames[p.Owner], p.Name)
+	}
 	kind := simmongo.FaultNone
 	crash := ""
 	for _, f := range faults {
